@@ -83,7 +83,7 @@ m = {
         {"name": "selfcheck", "path": "/verif/variants", "serves_properties": [p["id"] for p in props], "kind_free_text": "seeded breaking variants, benign twins and positive controls applied to a scratch copy of the current /repo"},
     ],
     "checks": checks,
-    "notes": "All 20 properties are claimed at level `other` (structural necessary conditions decided statically); none is decided behaviourally. Eight genuine defects (D1-D8) found by these rules were repaired in /repo with `fix:` commits (see known_findings.txt); the old code of each is kept as a seeded variant that must keep firing. Self-validation corpora: variants/ (seeded variants, benign twins, positive controls), seeded/ (240 independent sub-agent mutants from nine rounds, all reported by the property they break; 40 of them with a behaviour-preserving twin, 31 silent and 9 listed in twins_known.txt), benign/ (222 independent refactorings, feature additions, small and clippy-style edits and renames: 205 silent, 17 known alarms listed in twins_known.txt); tools/run_suite.py runs them all.",
+    "notes": "All 20 properties are claimed at level `other` (structural necessary conditions decided statically); none is decided behaviourally. Eight genuine defects (D1-D8) found by these rules were repaired in /repo with `fix:` commits (see known_findings.txt); the old code of each is kept as a seeded variant that must keep firing. Self-validation corpora: variants/ (seeded variants, benign twins, positive controls), seeded/ (240 independent sub-agent mutants from nine rounds, all reported by the property they break; 40 of them with a behaviour-preserving twin, 31 silent and 9 listed in twins_known.txt), benign/ (222 independent refactorings, feature additions, small and clippy-style edits and renames: 206 silent, 16 known alarms listed in twins_known.txt); tools/run_suite.py runs them all.",
     "not_applicable": [],
 }
 json.dump(m, open(os.path.join(VERIF, "MANIFEST.json"), "w"), indent=1)
